@@ -10,15 +10,40 @@ from .spec import *
 F = 'purescheduler.py'
 
 
-def Jown(st, x):
-    """member set of the scheduler that owns x"""
-    return st.elems(st.f('jobs', owner(x)))
+def Jown(st, x, S=None):
+    """member set of the scheduler that owns x.  Membership in the scheduler S the function is called on is read
+    from the heap (graph surgery changes it); the levels below are described by the rigid owner/under."""
+    if S is None:
+        return st.elems(st.f('jobs', owner(x)))
+    return If(member(st, S, x), J(st, S), st.elems(st.f('jobs', owner(x))))
 
 
-def sane_obj(old, new, x):
+def below(st, S, x):
+    """x is a member of S, or lies in the subtree of a member of S"""
+    m = q()
+    return Or(member(st, S, x), Exists([m], And(member(st, S, m), under(x, m))))
+
+
+def wf_top(st, S):
+    """admissible tree rooted at S: members are jobs; what lies below each member is a well-formed rigid tree;
+    the subtrees of distinct members are disjoint and do not contain S or members of S"""
+    m, m2, x = q(3)
+    return And(
+        is_sched(S),
+        ForAll([m], Implies(member(st, S, m), And(isa['AbstractJob'](m), st.alive(m), m != S, height(m) < height(S),
+                                                  height(m) >= 0, Not(under(S, m)),
+                                                  Implies(isa['PureScheduler'](m), wf_tree(st, m)))),
+               patterns=[member(st, S, m)]),
+        ForAll([m, x], Implies(And(member(st, S, m), under(x, m)), And(Not(member(st, S, x)), x != S)),
+               patterns=[z3.MultiPattern(member(st, S, m), under(x, m))]),
+        ForAll([m, m2, x], Implies(And(member(st, S, m), member(st, S, m2), m != m2), Not(And(under(x, m), under(x, m2)))),
+               patterns=[z3.MultiPattern(member(st, S, m), under(x, m2))]))
+
+
+def sane_obj(old, new, x, S=None):
     """the two link sets of x are the old ones restricted to the members of x's own scheduler"""
     r = q()
-    Jx = Jown(old, x)
+    Jx = Jown(old, x, S)
     return And(
         ForAll([r], new.mem(new.f('required', x), r) ==
                And(old.mem(old.f('required', x), r), Select(Jx, r)),
@@ -28,9 +53,9 @@ def sane_obj(old, new, x):
                patterns=[new.mem(new.f('_s_successors', x), r)]))
 
 
-def clean_obj(old, x):
+def clean_obj(old, x, S=None):
     r = q()
-    return ForAll([r], Implies(old.mem(old.f('required', x), r), Select(Jown(old, x), r)),
+    return ForAll([r], Implies(old.mem(old.f('required', x), r), Select(Jown(old, x, S), r)),
                   patterns=[old.mem(old.f('required', x), r)])
 
 
@@ -42,10 +67,10 @@ def untouched_obj(old, new, x):
 _PREDS = {}
 
 
-def defpred(c, name, old, new, body):
+def defpred(c, name, old, new, body, S):
     """named predicate  P(x) <=> body(x)  (definitional; keeps nested quantifiers behind an atom)"""
-    key = (name,) + tuple(st.H(f).get_id() for st in (old, new) if st is not None
-                          for f in ('$elems', 'required', '_s_successors', 'jobs'))
+    key = (name, S.get_id()) + tuple(st.H(f).get_id() for st in (old, new) if st is not None
+                                     for f in ('$elems', 'required', '_s_successors', 'jobs'))
     if key not in _PREDS:
         P = z3.Function(L.fresh_name(name), Ref, L.B)
         x = q()
@@ -55,36 +80,36 @@ def defpred(c, name, old, new, body):
     return P
 
 
-def saneP(c, old, new):
-    return defpred(c, 'sane', old, new, lambda x: sane_obj(old, new, x))
+def saneP(c, old, new, S):
+    return defpred(c, 'sane', old, new, lambda x: sane_obj(old, new, x, S), S)
 
 
-def cleanP(c, old):
-    return defpred(c, 'clean', old, None, lambda x: clean_obj(old, x))
+def cleanP(c, old, S):
+    return defpred(c, 'clean', old, None, lambda x: clean_obj(old, x, S), S)
 
 
-def untP(c, old, new):
-    return defpred(c, 'unt', old, new, lambda x: untouched_obj(old, new, x))
+def untP(c, old, new, S):
+    return defpred(c, 'unt', old, new, lambda x: untouched_obj(old, new, x), S)
 
 
 def Sane(c, old, new, S):
     x = q()
-    P = saneP(c, old, new)
-    return ForAll([x], Implies(under(x, S), P(x)), patterns=[under(x, S)])
+    P = saneP(c, old, new, S)
+    return ForAll([x], Implies(below(old, S, x), P(x)), patterns=[P(x), member(old, S, x)])
 
 
 def Clean(c, old, S):
     x = q()
-    P = cleanP(c, old)
-    return ForAll([x], Implies(under(x, S), P(x)), patterns=[under(x, S)])
+    P = cleanP(c, old, S)
+    return ForAll([x], Implies(below(old, S, x), P(x)), patterns=[P(x), member(old, S, x)])
 
 
 def frame_links(old, new, S):
-    """only the link sets (required, _s_successors) of objects under S may change"""
+    """only the link sets (required, _s_successors) of objects below S may change"""
     s = q()
     own = old.f('$setowner', s)
     role = old.f('$setrole', s)
-    mine = And(under(own, S), Or(role == 1, role == 2), old.alive(own), isa['AbstractJob'](own))
+    mine = And(below(old, S, own), Or(role == 1, role == 2), old.alive(own), isa['AbstractJob'](own))
     return ForAll([s], Implies(Not(mine), new.elems(s) == old.elems(s)), patterns=[new.elems(s)])
 
 
@@ -92,12 +117,14 @@ c = contract('PureScheduler.sanitize', F).param('self').param('verbose', 'ref', 
 c.for_props('C16', 'C18')
 c.decreases = lambda c: height(c.a.self)
 c.requires('tree-axioms', lambda c: And(tree_axioms()))
-c.requires('wf-tree', lambda c: wf_tree(c.pre, c.a.self))
+c.requires('wf-tree', lambda c: wf_top(c.pre, c.a.self))
 c.modifies('$elems')
 c.ensures('sane-everywhere', lambda c: Sane(c, c.pre, c.cur, c.a.self), props=['C16'])
+
+
 def _result_iff(c):
     if c.mode == 'assume':
-        c.cur.g['sanitize-call'] = dict(pre=c.pre, self=c.a.self, result=c.result)
+        c.cur.g['sanitize-call'] = dict(pre=c.pre, self=c.a.self, result=c.result, post=c.cur.copy())
     return c.result == Clean(c, c.pre, c.a.self)
 
 
@@ -110,7 +137,7 @@ def _san_inv(c):
     V = c.visited
     m, x = q(2)
     Jset = J(c.pre, S)
-    sane, clean, unt = saneP(c, c.pre, c.cur), cleanP(c, c.pre), untP(c, c.pre, c.cur)
+    sane, clean, unt = saneP(c, c.pre, c.cur, S), cleanP(c, c.pre, S), untP(c, c.pre, c.cur, S)
     visited_clean = And(
         ForAll([m], Implies(Select(V, m), clean(m)), patterns=[Select(V, m)]),
         ForAll([m, x], Implies(And(Select(V, m), under(x, m)), clean(x)),
@@ -139,22 +166,26 @@ def _san_hints(h, e):
     if h.elem is None:
         return []
     job = h.elem
+    S = e.a.self
     old = h.cur.elems(h.cur.f('required', job))
     new = e.cur.elems(e.cur.f('required', job))
     x0 = fresh('x0', Ref)
     out = [L.K4(new, old), L.ext_at(new, old, x0)] + L.card_facts(old) + L.card_facts(new)
     call = e.cur.g.get('sanitize-call')
     if call is not None and call['self'].eq(job):
-        # the nested call judged cleanliness in the state `mid`; below an unvisited member nothing
-        # had been touched yet, so that is cleanliness in the entry state
-        mid = call['pre']
-        cm, cp = cleanP(e, mid), cleanP(e, e.pre)
+        # the nested call judged cleanliness / sanity in the state `mid` and relative to the nested scheduler;
+        # below an unvisited member nothing had been touched yet, and its own scheduler is the same either way
+        mid, post = call['pre'], call['post']
+        cm, cp = cleanP(e, mid, job), cleanP(e, e.pre, S)
+        sm, sp = saneP(e, mid, post, job), saneP(e, e.pre, e.cur, S)
         x = q()
         out.append(L.Lemma('nested-clean-is-entry-clean',
                            ForAll([x], Implies(under(x, job), cm(x) == cp(x)), patterns=[under(x, job)])))
         out.append(L.Lemma('nested-result-in-entry-terms',
                            call['result'] == ForAll([x], Implies(under(x, job), cp(x)),
                                                     patterns=[under(x, job)])))
+        out.append(L.Lemma('nested-sane-is-sane-here',
+                           ForAll([x], Implies(under(x, job), sp(x)), patterns=[under(x, job)])))
     return out
 
 
